@@ -351,7 +351,9 @@ def explore(repo, body, typed=True, max_paths=4096, intercept=None):
     while stack:
         ch = stack.pop()
         if time.process_time() - t0 > budget:
-            raise AnalysisError(f'one scenario needs more than {budget:.0f} CPU seconds ({len(out)} paths explored, {len(stack) + 1} pending): too many data-dependent tests on its paths')
+            ae_ = AnalysisError(f'one scenario needs more than {budget:.0f} CPU seconds ({len(out)} paths explored, {len(stack) + 1} pending): too many data-dependent tests on its paths')
+            ae_.paths = _Paths(out)          # (what was explored until then: a rule that one path refutes is refuted)
+            raise ae_
         sc = Scenario(repo, typed=typed, choices=ch, intercept=intercept)
         try:
             res = body(sc)
